@@ -402,6 +402,25 @@ func objFnCheck(o, o2 val.Value) (string, int) {
 	if r := run(`$merge([o, p])`); !(r.Kind == port.KValue && val.Equal(r.Val, val.O(wantM))) {
 		return fmt.Sprintf("$merge([o, p]) is %s, the right-biased union is %s", r.String(), val.Canon(val.O(wantM))), evals
 	}
+	// ... a function of its argument only: the objects merged are what they were
+	// afterwards, so merging in the other order (after a first merge, in the
+	// same evaluation) is the left-biased union and o is still o
+	wantR := map[string]val.Value{}
+	for k, v := range o2.O {
+		wantR[k] = v
+	}
+	for k, v := range o.O {
+		wantR[k] = v
+	}
+	if r := run(`($x := $merge([o, p]); $merge([p, o]))`); !(r.Kind == port.KValue && val.Equal(r.Val, val.O(wantR))) {
+		return fmt.Sprintf("$merge([p, o]) after $merge([o, p]) is %s, the union with o winning is %s", r.String(), val.Canon(val.O(wantR))), evals
+	}
+	if r := run(`($x := $merge(arr); $y := $merge([$x, p, o]); [o, $x, $merge([$x])])`); !(r.Kind == port.KValue && val.Equal(r.Val, val.A(o, val.O(wantM), val.O(wantM)))) {
+		return fmt.Sprintf("[o, $x, $merge([$x])] after $x := $merge(arr) and a further merge starting with $x is %s, want [o, union, union] with union %s", r.String(), val.Canon(val.O(wantM))), evals
+	}
+	if r := run(`($s := $spread(o); $x := $merge($append($s, p)); $merge($s))`); n > 0 && !(r.Kind == port.KValue && val.Equal(r.Val, o)) {
+		return fmt.Sprintf("$merge($spread(o)) after merging the same spread with p appended is %s, want o", r.String()), evals
+	}
 	// $lookup(o, k) equals the field selection of k on o whenever such a member exists
 	for _, k := range o.Keys() {
 		e := fmt.Sprintf("$lookup(o, %s) = o.%s", ast.QuoteString(k, false), "`"+k+"`")
